@@ -175,6 +175,23 @@ class OpGen:
         d.tag("op.directive_literal")
         return f" @{name}(if: {d.choice(['true', 'false'])})"
 
+    def _mixin_plan(self):
+        """the order of the user's mixin classes has to be linearisable by Python (C3): a class lists the fragment
+        classes it derives from first and its own @mixin classes after them, so two sites naming the same two mixin
+        classes in opposite orders - directly, or through the fragments they spread - are the USER's contradiction
+        ("Cannot create a consistent method resolution order ... MixinA, object, MixinB"), not the generator's.
+        By construction: one order (first, second) per case; fragment definitions carry [first] or [first, second]
+        (so every fragment class has first before second); fields - leaf classes nobody derives from - may carry any
+        subset in any order, except that the REVERSED pair is only written in cases whose fragments never carry
+        `second` (drawn once per case)."""
+        if getattr(self, "_mplan", None) is None:
+            d = self.d
+            order = list(self.mixins)
+            if len(order) >= 2 and d.bool(0.5):
+                order[0], order[1] = order[1], order[0]
+            self._mplan = {"order": order, "reverse_ok": d.bool(0.5)}
+        return self._mplan
+
     def _mixin(self):
         d = self.d
         if self.mixins and d.bool(0.3):
@@ -183,9 +200,15 @@ class OpGen:
             text = f' @mixin(from: ".{mod}", import: "{cls}")'
             others = [m for m in self.mixins if m != (mod, cls)]
             if others and d.bool(0.25):
+                plan = self._mixin_plan()
                 mod2, cls2 = d.choice(others)  # @mixin is repeatable: two classes on one field
-                text += f' @mixin(from: ".{mod2}", import: "{cls2}")'
+                pair = [(mod, cls), (mod2, cls2)]
+                if not plan["reverse_ok"]:
+                    pair.sort(key=plan["order"].index)
+                text = "".join(f' @mixin(from: ".{m}", import: "{c}")' for m, c in pair)
                 d.tag("op.mixin_twice")
+                if pair != sorted(pair, key=plan["order"].index):
+                    d.tag("op.mixin_twice_reversed")
             return text
         return ""
 
@@ -587,8 +610,12 @@ class OpGen:
                 alldeps |= self.fragments[dep]["alldeps"]
             mixin = ""
             if self.mixins and d.bool(0.2):
-                mod, cls = d.choice(self.mixins)
-                mixin = f' @mixin(from: ".{mod}", import: "{cls}")'
+                plan = self._mixin_plan()  # see there: fragment classes keep ONE order of the mixin classes
+                own = plan["order"][:1]
+                if len(plan["order"]) >= 2 and not plan["reverse_ok"] and d.bool(0.4):
+                    own = plan["order"][:2]
+                    d.tag("op.mixin_fragment_twice")
+                mixin = "".join(f' @mixin(from: ".{mod}", import: "{cls}")' for mod, cls in own)
                 d.tag("op.mixin_fragment")
             self.fragments[name] = {
                 "type": t.name,
